@@ -230,6 +230,7 @@ type WorkerReport struct {
 	StrayRuns      int               `json:"stray_runs"`
 	Samples        []json.RawMessage `json:"samples"`
 	HashFile       string            `json:"hash_file"`
+	NextRun        int               `json:"next_run"`
 }
 
 func addMap(dst, src map[string]int) {
@@ -292,7 +293,7 @@ func runBatch(cfg *config, b *built, outDir string) *batchResult {
 		go func(w int) {
 			defer wg.Done()
 			first := 0
-			for gen := 0; gen < 50; gen++ {
+			for gen := 0; gen < 300; gen++ {
 				left := time.Until(deadline).Seconds()
 				if left < 1 {
 					return
@@ -314,7 +315,7 @@ func runBatch(cfg *config, b *built, outDir string) *batchResult {
 						return
 					}
 				}
-				if code == 0 {
+				if code == 0 || code == 4 {
 					rep := &WorkerReport{}
 					if err := readJSON(filepath.Join(outDir, "worker-"+tag+".json"), rep); err != nil {
 						mu.Lock()
@@ -325,6 +326,11 @@ func runBatch(cfg *config, b *built, outDir string) *batchResult {
 					mu.Lock()
 					res.reports = append(res.reports, rep)
 					mu.Unlock()
+					if code == 4 && rep.NextRun > first {
+						// a run was unwound (hang/deadlock): fresh process for the rest
+						first = rep.NextRun
+						continue
+					}
 					return
 				}
 				if code == 3 {
@@ -880,6 +886,7 @@ func runCheck(cfg *config) int {
 			"no_preempt_brackets":              b.rep.CritBrackets,
 			"expression_level_yields":          b.rep.ExprWrapping,
 			"atomic_ops_wrapped":               b.rep.AtomicWraps,
+			"library_locks_simulated":          b.rep.SimLocks,
 			"hot_sites_after_sync_ops":         b.nhot,
 			"constructs_outside_scheduler":     b.rep.Uncontrolled,
 			"controlled":                       agg.FreeRuns == 0,
